@@ -223,6 +223,9 @@ pub fn run(tier: Tier) -> i32 {
             // second small file: k=1 in quick like every seed, k=2 in thorough
         }
         let k = if small && tier == Tier::Thorough { 2 } else { 1 };
+        // quick tier, compact seeds: a second edit restricted to the END of the body (insert
+        // before the closing brace, replace or delete the last token) on top of every first edit
+        let tail2 = small && tier == Tier::Quick;
         for v in victims(raw, &defs0) {
             if fname.starts_with("gen/") && v.def != 1 {
                 continue;
@@ -277,8 +280,19 @@ pub fn run(tier: Tier) -> i32 {
                     } else {
                         skipped += 1;
                     }
-                    if k >= 2 {
-                        for ed2 in edits(t1.len(), alpha.len()) {
+                    if k >= 2 || tail2 {
+                        let second: Vec<Edit> = if k >= 2 {
+                            edits(t1.len(), alpha.len())
+                        } else {
+                            let n1 = t1.len();
+                            let mut v: Vec<Edit> = (0..alpha.len()).map(|a| Edit::Ins(n1, a)).collect();
+                            if n1 > 0 {
+                                v.push(Edit::Del(n1 - 1));
+                                v.extend((0..alpha.len()).map(|a| Edit::Rep(n1 - 1, a)));
+                            }
+                            v
+                        };
+                        for ed2 in second {
                             let t2 = apply(&t1, &ed2, &alpha);
                             if balanced(&t2) {
                                 let desc = format!("{} ; {}", ctx_of(&toks, ed, &alpha), ctx_of(&t1, &ed2, &alpha));
